@@ -158,7 +158,8 @@ Definition permitted_events (nd : node) (fabs : list fabric) (who : accessor) (p
     && match event_source nd ev with Some t => event_granted fabs who t | None => false end
     && existsb (fun p => event_matches p ev) paths) queue.
 
-(** the decision table of a concrete event path; None = no status entry *)
+(** the decision table of a concrete event path, as the property states it ("a concrete path
+    that is absent or not permitted yields the corresponding status"); None = no status entry *)
 Definition event_path_status (nd : node) (fabs : list fabric) (who : accessor) (e c id : N)
   : option status :=
   match find (fun x => ep_id x =? e) nd with
@@ -168,7 +169,7 @@ Definition event_path_status (nd : node) (fabs : list fabric) (who : accessor) (
       | None => Some SUnsupportedCluster
       | Some cl =>
           match find (fun l => l_id l =? id) (filter l_on (c_events cl)) with
-          | None => None                       (* reading: an absent event id is skipped silently *)
+          | None => Some SUnsupportedEvent     (* the property: an absent concrete path yields its status *)
           | Some l => if event_granted fabs who (ep, cl, l) then None else Some SUnsupportedAccess
           end
       end
@@ -213,6 +214,44 @@ Definition spec_subscribe_events (nd : node) (fabs : list fabric) (who : accesso
       else RespStatus SInvalidAction
   end.
 
+(** ** Known finding [absent-event-no-status]
+
+    The code deliberately answers a ReadRequest's concrete event path whose
+    cluster exists on the endpoint but whose event id is not among the
+    cluster's events with nothing at all instead of an UnsupportedEvent
+    status (im.rs report_events: "TODO: Look at TestEventsById.yaml").  The
+    class of requests on which this shows, and what the code answers. *)
+Definition absent_event_path (nd : node) (p : gpath) : bool :=
+  match p_ep p, p_cl p, p_leaf p with
+  | Some e, Some c, Some id =>
+      match find (fun x => ep_id x =? e) nd with
+      | None => false
+      | Some ep =>
+          match find (fun x => c_id x =? c) (ep_clusters ep) with
+          | None => false
+          | Some cl =>
+              match find (fun l => l_id l =? id) (filter l_on (c_events cl)) with
+              | None => true
+              | Some _ => false
+              end
+          end
+      end
+  | _, _, _ => false
+  end.
+
+Definition known_absent_event_no_status (nd : node) (paths : list gpath) : bool :=
+  existsb (absent_event_path nd) paths.
+
+Definition is_unsupported_event_status (o : out) : bool :=
+  match o with OStatus _ _ SUnsupportedEvent => true | _ => false end.
+
+(** an answer with its UnsupportedEvent status entries removed *)
+Definition strip_known (r : imresp) : imresp :=
+  match r with
+  | RespItems outs log => RespItems (filter (fun o => negb (is_unsupported_event_status o)) outs) log
+  | _ => r
+  end.
+
 (** well-formed for events: event ids distinct within a cluster *)
 Definition wf_node_events (nd : node) : bool :=
   forallb (fun e => forallb (fun c => distinct (map l_id (c_events c))) (ep_clusters e)) nd.
@@ -225,6 +264,14 @@ Definition holds_events (subscribe : bool) (who : accessor) (nd : node) (fabs : 
     imresp_eqb resp (if subscribe then spec_subscribe_events nd fabs who paths queue
                      else spec_read_events nd fabs who paths queue)
   else true.
+
+(** the answer violates the property in the known way only: the request is a read in the
+    class and the answer is the specified one without its UnsupportedEvent entries *)
+Definition holds_events_known (subscribe : bool) (who : accessor) (nd : node) (fabs : list fabric)
+  (paths : list gpath) (queue : list qevent) (resp : imresp) : bool :=
+  negb subscribe && known_absent_event_no_status nd paths
+  && wf_node_events nd && wf_fabrics fabs
+  && imresp_eqb resp (strip_known (spec_read_events nd fabs who paths queue)).
 
 (** a group requester's write / invoke is not answered: the handler log is all
     that can be observed, and must be the specified one *)
